@@ -816,4 +816,33 @@ theorem unique_canonical (cfg : Cfg) (fs : FS) (sn : List Bytes) (batch : List (
     have := join_injective (fun n h => (hn1 n h).1) (fun n h => (hn2 n h).1) e
     rw [e1, e2, this]
 
+/-! ### a file below a clean source dir -/
+
+/-- `get_abs_path(source_dir, rel)` for the source-relative path of an existing file: the pair is
+(source_dir/rel, rel) -/
+theorem getAbsPath_under_source {fs : FS} {sn names : List Bytes}
+    (hsn : ∀ n ∈ sn, RealName n) (hn : ∀ n ∈ names, RealName n) (hne : names ≠ [])
+    (hres : fs.resolve (render ⟨true, sn ++ names⟩) = some (sn ++ names, .file)) :
+    getAbsPath fs (some (render ⟨true, sn⟩)) (join names) =
+      .ok (some (render ⟨true, sn ++ names⟩, join names)) := by
+  have hstrip := stripPrefix_render hsn hn
+  have hreal : fs.realpath (render ⟨true, sn ++ names⟩) = some (render ⟨true, sn ++ names⟩) := by
+    simp [FS.realpath, hres]
+  have hfile : fs.isFile (render ⟨true, sn ++ names⟩) = true := by simp [FS.isFile, hres]
+  have hrelj : isRelative (join names) = true := by
+    cases names with
+    | nil => exact absurd rfl hne
+    | cons x t =>
+      unfold isRelative hasRoot
+      simpa using head_join_ne_slash (hn x (by simp)).1 (hn x (by simp)).2.1
+  have hall : ∀ n ∈ sn ++ names, RealName n := by
+    intro n h; rcases List.mem_append.1 h with h | h
+    · exact hsn n h
+    · exact hn n h
+  rw [getAbsPath_some_iff]
+  refine ⟨render ⟨true, sn ++ names⟩, ?_, normalizePath_render (np := ⟨true, sn ++ names⟩) hall, ?_⟩
+  · simp [absCanon, absGuess, hrelj, guessAbsPath, push_render hsn hn hne, hfile, canonOrNorm, hreal]
+  · simp only [fixupRelPath, hstrip]
+    rw [join_eq_render, normalizePath_render (np := ⟨false, names⟩) hn]
+
 end Grcov.Rewrite
